@@ -112,12 +112,12 @@ def spec(s3, pairs):
 
 
 def run(ctx):
-    ctx.coverage["rule"] = ("corpus structures (grid-snapped), rigidly moved, jittered (sigma 0.05-0.3 A), thinned of residues/atoms. Non-trivial = >= 1 candidate contact "
+    ctx.coverage["rule"] = ("corpus structures (grid-snapped), rigidly moved, jittered (sigma 0.05-0.3 A), thinned of residues/atoms; synthetic placements of two coplanar nucleotides (all letters incl. modified and DNA, random approach; symmetric dimers of every letter pushed together from 24/72 directions, which carry two classes per nucleotide pair). Non-trivial = >= 1 candidate contact "
                             "and no decision inside the 1e-6 band; distinct by (structure, perturbation).")
     corr_expr, corr_exp, corr_case = [], [], []
     nb_expr, nb_exp, nb_case = [], [], []
     undecided = 0
-    for name, kind, s3 in annot.structures(ctx):
+    for name, kind, s3 in annot.structures(ctx, kinds=("corpus", "moved", "jitter", "reversed", "thin", "thin-base", "synthetic-pair")):
         try:
             pairs, bphs, brs, sts, o1, o2, raw = annot.annotate(s3)
         except Exception as e:  # noqa: BLE001
